@@ -32,6 +32,7 @@ Definition check (c : case) : bool :=
 
 (* property-level: the verdict is a boolean and does not change when the pairs are swapped *)
 Definition prop_check (c : case) : bool :=
+  check c &&   (* the closed form is the property's own statement (C17_spock_verify_iff) *)
   (String.eqb (c_verdict c) "true" || String.eqb (c_verdict c) "false") &&
   String.eqb (c_verdict c) (c_swapped c).
 
